@@ -64,7 +64,7 @@ func HostileMsgs(r *vlib.Rng, u *Universe, eon uint64) []HostileMsg {
 	inf[0] = 0xc0
 	var out []lm
 	alwaysInvalid := map[string]bool{
-		"bc:addr19": true, "bc:addr21": true, "bc:addr0": true, "bc:nokeypers": true, "bc:th0": true, "bc:thmax": true,
+		"bc:addr19": true, "bc:addr21": true, "bc:addr0": true, "bc:nokeypers": true, "bc:dupkeypers": true, "bc:th0": true, "bc:thmax": true,
 		"ci:val0": true, "ci:val31": true, "ci:val33": true, "ci:enc0": true, "ci:encprefix9": true,
 		"pe:mismatch": true, "pe:mismatch2": true, "pe:addr19": true, "pe:addr21": true,
 		"pc:len95": true, "pc:len0": true, "pc:len192": true,
